@@ -15,6 +15,7 @@
       iff  ok & no error issued  or  unrecoverable & >= 1 error issued).
 """
 import collections
+import zlib
 import concurrent.futures as cf
 import json
 import os
@@ -139,7 +140,8 @@ class Texts:
 
     def _add(self, rec, job):
         self.n_records += 1
-        text = G.render(rec, hash((self.seed, job, self.n_records)) & 0x7fffffff)
+        # the rendering choices are a function of the record itself (TLC's workers export in a run-dependent order)
+        text = G.render(rec, (zlib.crc32(json.dumps(rec, sort_keys=True).encode()) ^ (self.seed * 2654435761) ^ zlib.crc32(str(job).encode())) & 0x7fffffff)
         ok, why = G.safe(text)
         if not ok:
             self.dropped[why] += 1
